@@ -138,18 +138,39 @@ def WF.names (inp : Input) : Bool :=
     (tpNames.all fun t => !(t ∈ cands)) &&
     scopeNamesOK cands [] tpNames
 
-/-- WF.generic: type-parameter names survive `Exported`; `populateImports` sees every
-    package the constraints mention (it has no case for unions). -/
+/-- WF.generic: `populateImports` sees every package the constraints mention (it has no case
+    for unions).  (The clause "type-parameter names survive `Exported`" was dropped with the
+    fix of F-04.) -/
 def WF.generic (inp : Input) : Bool :=
   (reqIfaces inp).all fun i => !i.generic ||
     i.tparams.all fun t =>
-      exported t.name = t.name &&
       (Ty.allPkgs t.constraint).all (fun p => p ∈ Ty.pkgsOf t.constraint) &&
       (t.embeds.all fun e => (Ty.allPkgs e).isEmpty)
 
 def isComparable : Ty → Bool
   | .named p o _ _ => p.path = [] && o = s%"comparable"
   | _ => false
+
+mutual
+/-- does the type mention a type parameter -/
+def mentionsTParam : Ty → Bool
+  | .tparam _ => true
+  | .named _ _ targs _ => mentionsTParamL targs
+  | .alias _ _ targs _ => mentionsTParamL targs
+  | .ptr e => mentionsTParam e
+  | .slice e => mentionsTParam e
+  | .array _ e => mentionsTParam e
+  | .map k v => mentionsTParam k || mentionsTParam v
+  | .chan _ e => mentionsTParam e
+  | .sig _ pt _ rt _ => mentionsTParamL pt || mentionsTParamL rt
+  | .struct _ ft _ _ => mentionsTParamL ft
+  | .iface _ ms em _ => mentionsTParamL ms || mentionsTParamL em
+  | .union _ ts => mentionsTParamL ts
+  | .basic _ => false
+def mentionsTParamL : List Ty → Bool
+  | [] => false
+  | t :: ts => mentionsTParam t || mentionsTParamL ts
+end
 
 /-- WF.ensure: the representative type argument picked for the self-check line is valid -/
 def WF.ensure (inp : Input) : Bool :=
@@ -162,7 +183,7 @@ def WF.ensure (inp : Input) : Bool :=
         | .union _ _ => some false
         | _ => none) with
       | some b => b
-      | none => t.embeds.isEmpty && !isComparable t.constraint
+      | none => t.embeds.isEmpty && !isComparable t.constraint && !mentionsTParam t.constraint
 
 /-- WF.dest: the destination is the source package (no `-pkg`), its external test package,
     or a package with a different name -/
